@@ -197,6 +197,7 @@ def run(ctx, chk, tier):
         chk.hold("R14.5", "entropy", "%d random draws on all built-in sampling paths come from the global numpy.random state" % n)
     if n < 50:
         chk.unknown("R14.5", "only %d random draws observed" % n)
+    set_iteration_order(ctx, chk)
     chk.floor("R14.1", 4, "2 classes x 2 metric kinds")
     # the CI formula itself (C13) is part of "bootstrap_ci equals the documented formula applied to those replicates"
     from . import c13, c01
@@ -208,3 +209,78 @@ def run(ctx, chk, tier):
 
 
 from ..terms import V as V_  # noqa: E402
+
+
+def set_iteration_order(ctx, chk, rule="R14.5"):
+    """The iteration order of a set of strings differs from one interpreter run to the next (hash randomisation): a loop over a set on a
+    sampling path decides which group receives which draws, so a fixed numpy seed no longer reproduces the replicates across processes.
+    Syntax-directed: in the functions of the sampling modules that (transitively, within the class) make random draws, the iterable of every
+    `for` / comprehension must not be a set expression (set(...), a set literal / comprehension, a union / intersection / difference of sets,
+    or a name bound to one) unless it is passed through sorted()."""
+    import ast
+
+    def is_set_expr(e, names):
+        if isinstance(e, (ast.Set, ast.SetComp)):
+            return True
+        if isinstance(e, ast.Call):
+            f = e.func
+            if isinstance(f, ast.Name) and f.id in ("set", "frozenset"):
+                return True
+            if isinstance(f, ast.Attribute) and f.attr in ("union", "intersection", "difference", "symmetric_difference") and is_set_expr(f.value, names):
+                return True
+            return False
+        if isinstance(e, ast.BinOp) and isinstance(e.op, (ast.BitOr, ast.BitAnd, ast.Sub, ast.BitXor)):
+            return is_set_expr(e.left, names) or is_set_expr(e.right, names)
+        if isinstance(e, ast.Name):
+            return e.id in names
+        return False
+
+    def draws(fn_node):
+        for n in ast.walk(fn_node):
+            if isinstance(n, ast.Call):
+                src = ast.unparse(n.func)
+                if src.startswith(("np.random.", "numpy.random.", "rng.", "self._rng.", "random.")):
+                    return True
+        return False
+
+    n_fn = 0
+    mods = []
+    for mq in ("score_analysis.scores", "score_analysis.group_scores"):
+        try:
+            mods.append(ctx.db.module(mq))
+        except Exception:  # noqa: BLE001
+            continue
+    allm = [(c, nm, f) for mod_ in mods for c in mod_.classes.values() for nm, f in c.methods.items()]
+    drawing = {nm for _c, nm, f in allm if draws(f.node)}
+    # methods that call a drawing method (of their own or a base / derived class: resolved by name) are on a sampling path as well
+    for _ in range(3):
+        for _c, nm, f in allm:
+            if nm in drawing:
+                continue
+            called = {x.func.attr for x in ast.walk(f.node) if isinstance(x, ast.Call) and isinstance(x.func, ast.Attribute)}
+            if called & drawing:
+                drawing.add(nm)
+    for mod in mods:
+        for c in mod.classes.values():
+            for nm in sorted(n_ for n_ in c.methods if n_ in drawing):
+                f = c.methods[nm]
+                n_fn += 1
+                names = set()
+                for x in ast.walk(f.node):
+                    if isinstance(x, ast.Assign) and len(x.targets) == 1 and isinstance(x.targets[0], ast.Name) and is_set_expr(x.value, names):
+                        names.add(x.targets[0].id)
+                bad = []
+                for x in ast.walk(f.node):
+                    its = [x.iter] if isinstance(x, (ast.For, ast.comprehension)) else []
+                    for it in its:
+                        if is_set_expr(it, names):
+                            bad.append((getattr(it, "lineno", f.node.lineno), ast.unparse(it)[:70]))
+                q = c.qualname + "." + nm
+                for line, src in bad:
+                    chk.violation(rule, q, "%s:set-iteration:%s" % (nm, src[:40]), "iterates over the set expression `%s` on a sampling path" % src,
+                                  "a deterministic order (self.groups, sorted(...)): the iteration order of a set of strings changes with the interpreter's hash seed, "
+                                  "so a fixed numpy seed would not reproduce the draws", "%s:%d" % (mod.relpath, line))
+                if not bad:
+                    chk.hold(rule, "iteration-order:%s.%s" % (c.name, nm), "no loop over a set expression", nontrivial=False)
+    if n_fn < 2:
+        chk.unknown(rule, "only %d drawing methods found in scores / group_scores" % n_fn)
